@@ -151,7 +151,7 @@ def run(thorough=False, label="C04"):
     if problems:
         res["numarms_problems"] = problems[:10]
         from .. import prolog
-        rp = prolog.replay_number_comparisons(problems)
+        rp = prolog.replay_number_comparisons(problems, prop=label)
         if rp["reproduced"]:
             log("VIOLATION property=%s replay=%s" % (label, rp["path"]))
             res["exit"] = EXIT_VIOLATION
